@@ -8,6 +8,7 @@ CFG = {'assumptions': ['all bytes in [0,256)',
  'go': {'pbcmpl.Unmarshal/stream': 'pbcmpl.Unmarshal called until the first error on one reader',
         'pbcmpl.ReadHeader/bytes': 'pbcmpl.ReadHeader',
         'pbcmpl.Marshal/faulty': 'pbcmpl.Marshal into a writer that follows a script of (bytes accepted, fail?) responses',
+        'pbcmpl.Marshal/encerr': 'widening: pbcmpl.Marshal of a message whose own Marshal method returns an error, into a scripted writer',
         'pbcmpl.Walk/bytes': 'widening: a user loop of pbcmpl.ReadHeader + io.ReadFull(GetBodySize) on arbitrary bytes (refuses hsize != 32, bsize < 0 or > 64 KiB)'},
  'rule': 'cases = EVERY cut point 0..len of frames (body lengths 0,1,2,31,32,33,100 [+127..700 thorough]) x terminal {EOF, injected '
          'error} x {alone, with the last chunk} x chunking {whole, 1 byte, random}, also behind a complete frame; writer failing '
